@@ -2,6 +2,7 @@ import Slu.Model.Lacon
 import Slu.Model.Cond
 import SluProofs.Lemmas.Lacon
 import SluProofs.Lemmas.Cond
+import SluProofs.Lemmas.FoldCongr
 /-
 C12 — Condition estimate is a valid one-sided bound; growth factor matches factors.
 
@@ -106,6 +107,88 @@ theorem effTrans_spec (rowStored : Bool) (t : Trans) :
     effTrans rowStored t =
       (if rowStored then (if t = .N then (.T, false) else (.N, true)) else (t, decide (t = .N))) := by
   cases rowStored <;> cases t <;> simp [effTrans]
+
+/-! ### reciprocal pivot growth -/
+
+end Slu.Lacon
+namespace Slu.Cond
+open Slu
+
+/-- on a supernode that stores at least as many rows as the column's offset (always the case in a
+nonsingular factorization) the guarded decoder is `LUFac.decodeU` -/
+theorem decodeUg_eq (F : LUFac Rat) (i j : Nat) (h : j - F.L.fsupc j < F.L.nsupr j) :
+    decodeUg F i j = F.decodeU i j := by
+  unfold decodeUg LUFac.decodeU
+  dsimp only
+  split
+  · rfl
+  · split
+    · rename_i h1 h2
+      have : i - F.L.fsupc j < F.L.nsupr j := by omega
+      simp [this]
+    · rfl
+
+/-- the update of `rpg` by one column, as the property states it: `min(rpg, max|A_j| / max|U_j|)`,
+with the library's convention `min(rpg, 1)` for an all-zero column of U -/
+def growthStep (A : CSC Rat) (inv : Array Nat) (F : LUFac Rat) (rpg : Rat) (j : Nat) : Rat :=
+  let maxaj := colMaxAbs (R := Rat) A (inv.getD j 0)
+  let maxuj := colMaxUspec F j
+  if maxuj = 0 then min rpg 1 else min rpg (maxaj / maxuj)
+
+/-- **C12 (growth factor, per column).** For a column `j = fsupc + d` of a supernode whose slices
+are laid out as the scan assumes, the scan's update of `rpg` is `min(rpg, max|A_j| / max|U_j|)` with
+`max|U_j|` the largest magnitude in column `j` (rows `0..j`) of the decoded upper factor — whether
+the entries sit in column storage (rows above the supernode) or in the supernodal rectangle, and
+also when the supernode stores fewer rows than columns (singular factorization). -/
+theorem pivotGrowth_column_spec (A : CSC Rat) (inv : Array Nat) (F : LUFac Rat) (fsupc luptr nsupr d : Nat) (rpg : Rat)
+    (hf : F.L.fsupc (fsupc + d) = fsupc)
+    (hx : F.L.xlusup[fsupc + d]! = luptr + d * nsupr) (hn : F.L.nsupr (fsupc + d) = nsupr)
+    (hnd : ((F.U.col (fsupc + d)).map Prod.fst).Nodup) (habove : ∀ e ∈ F.U.col (fsupc + d), e.1 < fsupc) :
+    pgColumn (R := Rat) A inv F fsupc luptr nsupr rpg d = growthStep A inv F rpg (fsupc + d) := by
+  unfold pgColumn growthStep
+  dsimp only
+  rw [colMaxU_spec F (fsupc + d) fsupc luptr nsupr d hf (by omega) (by omega) hx hn hnd habove]
+  simp only [smin_eq_min, beq_iff_eq]
+
+/-
+**C12 (growth factor, whole scan) — goal, not yet proved (`pivotGrowth_spec_goal`).**
+  For well-formed supernodal storage (`xsup[0] = 0`, `xsup` strictly increasing up to
+  `xsup[nsuper+1] = n`, `fsupc j = xsup[k]` for `xsup[k] ≤ j < xsup[k+1]`,
+  `xlusup[j] = xlusup[fsupc] + (j - fsupc) * nsupr`, U's column rows distinct and above the supernode):
+    pivotGrowth ncols A perm_c F sml
+      = (List.range (min ncols n)).foldl (growthStep A (invPerm perm_c n) F) (1 / sml)
+  i.e. the loop over supernodes with the `nz_in_U` counter and the early `break` visits exactly the
+  columns `0 .. min(ncols,n)-1`, each once.  Proved above: each visited column contributes
+  `growthStep` (`pivotGrowth_column_spec`).  Missing: flattening of the two nested loops into one range
+  (concatenation of the ranges `[xsup k, xsup (k+1))`).  The correspondence check compares the whole
+  scan bit for bit with `[sdcz]PivotGrowth` and, in exact rationals, with the right-hand side above.
+-/
+
+/-- the part of the whole-scan statement that is proved: one supernode = a fold of `growthStep` over
+its columns below `ncols` -/
+theorem pivotGrowth_spec_partial (ncols : Nat) (A : CSC Rat) (inv : Array Nat) (F : LUFac Rat) (rpg : Rat) (k : Nat)
+    (hwf : ∀ d, d < min (F.L.xsup.getD (k + 1) 0) ncols - F.L.xsup.getD k 0 →
+      F.L.fsupc (F.L.xsup.getD k 0 + d) = F.L.xsup.getD k 0 ∧
+      F.L.xlusup[F.L.xsup.getD k 0 + d]! = F.L.xlusup.getD (F.L.xsup.getD k 0) 0 +
+        d * (F.L.xlsub.getD (F.L.xsup.getD k 0 + 1) 0 - F.L.xlsub.getD (F.L.xsup.getD k 0) 0) ∧
+      F.L.nsupr (F.L.xsup.getD k 0 + d) = F.L.xlsub.getD (F.L.xsup.getD k 0 + 1) 0 - F.L.xlsub.getD (F.L.xsup.getD k 0) 0 ∧
+      ((F.U.col (F.L.xsup.getD k 0 + d)).map Prod.fst).Nodup ∧
+      ∀ e ∈ F.U.col (F.L.xsup.getD k 0 + d), e.1 < F.L.xsup.getD k 0) :
+    (pgSuper (R := Rat) ncols A inv F rpg k).1 =
+      ((List.range (min (F.L.xsup.getD (k + 1) 0) ncols - F.L.xsup.getD k 0)).map (F.L.xsup.getD k 0 + ·)).foldl
+        (growthStep A inv F) rpg := by
+  unfold pgSuper
+  dsimp only
+  rw [List.foldl_map]
+  apply Slu.Refine.foldl_congr_mem
+  intro d hd acc
+  obtain ⟨h1, h2, h3, h4, h5⟩ := hwf d (List.mem_range.mp hd)
+  exact pivotGrowth_column_spec A inv F _ _ _ d acc h1 h2 h3 h4 h5
+
+end Slu.Cond
+namespace Slu.Lacon
+open Slu
+variable {K : Type}
 
 /-! ### non-vacuity: the hypotheses are satisfiable and the machine really runs -/
 
